@@ -490,6 +490,7 @@ def relpar_cfgs(tier, seed):
     C = []
     for (threads, kw) in [(1, dict(n=3, m=2, s=1, p=2, w="diag")), (2, dict(n=3, m=2, s=3, p=2, w="diag", mrhs=1, maxpaths=16)), (4, dict(n=3, m=2, s=1, p=2, w="none", eps="sym")),
                           (3, dict(n=2, m=2, s=5, p=1, w="none", mrhs=1, maxpaths=8)),
+                          (2, dict(n=3, m=2, s=1, p=5, w="diag", maxpaths=8)),
                           (16, dict(n=3, m=2, s=2, p=2, w="diag", mrhs=1, deriv_fail=1)), (3, dict(n=2, m=1, s=1, p=1, w="diag", real_svd=1))]:
         d = dict(useed=u, vseed=v, threads=threads)
         d.update(kw)
@@ -498,6 +499,7 @@ def relpar_cfgs(tier, seed):
         for threads in (1, 2, 3, 4, 8, 16):
             C.append(("relpar", dict(n=3, m=2, s=3 + threads % 3, p=1, w="diag", mrhs=1, useed=u, vseed=v, threads=threads, maxpaths=16)))
             C.append(("relpar", dict(n=4, m=2, s=2, p=2, w="diag", mrhs=1, useed=v, vseed=u, threads=threads)))
+            C.append(("relpar", dict(n=3, m=2, s=1, p=3 + threads % 4, w="none", useed=u, vseed=v, threads=threads, maxpaths=8)))
             C.append(("relpar", dict(n=4, m=3, s=1, p=2, w="diag", useed=u + 1, vseed=v + 1, threads=threads, eps="neg")))
     return C
 
